@@ -940,6 +940,11 @@ func (e *emitter) c04GlueOptList(c *c04sem, rel, goName, lean, sig, list string)
 			case *ast.DeclStmt:
 				continue
 			case *ast.AssignStmt:
+				// opts := make([]ClientOption, 0, n): an empty list (a pre-sized allocation)
+				if mk, ok := x.Rhs[0].(*ast.CallExpr); ok && len(x.Lhs) == 1 && c.s.src(x.Lhs[0]) == list && c.s.src(mk.Fun) == "make" &&
+					len(lets) == 0 && (len(mk.Args) < 2 || c.s.src(mk.Args[1]) == "0") {
+					continue
+				}
 				if el, ok := elem(x); ok {
 					lets = append(lets, el)
 					continue
